@@ -331,12 +331,12 @@ fn gen_malformed(bytes: &[u8]) -> String {
 
 pub fn run(ctx: &mut Ctx) {
     let n = ctx.nshards as u32;
-    drive(ctx, "strict", ctx.tier.pick(120_000, 3_000_000) / n, 8, 160, |ctx, bytes| {
+    drive(ctx, "strict", ctx.tier.pick(480_000, 6_000_000) / n, 8, 160, |ctx, bytes| {
         let case = gen_case(bytes);
         check_strict(ctx, "strict", &case)
     });
     ctx.more_samples(2);
-    drive(ctx, "malformed", ctx.tier.pick(30_000, 600_000) / n, 4, 40, |ctx, bytes| {
+    drive(ctx, "malformed", ctx.tier.pick(120_000, 1_200_000) / n, 4, 40, |ctx, bytes| {
         let text = gen_malformed(bytes);
         guard("malformed", "src", &text);
         ctx.case(hash_str(&text), true);
